@@ -260,3 +260,129 @@ Proof.
   destruct (seq_ok (peg_iterm f) (iitems t) (proj1 (iitems_shape t)) HG R f HF Hn) as (a & b & R1 & E1 & E2 & E3).
   rewrite E1, E2, E3, pratt_iterm_items. reflexivity.
 Qed.
+
+(* ---------- general terms ---------- *)
+Definition ihead (tok : token) : Prop :=
+  match tok with
+  | TNum _ | TNegNum _ | TMinus | TLParen => True
+  | TFun _ SInteger | TVar _ SInteger => True
+  | _ => False
+  end.
+Lemma print_iterm_head t : exists tok rest, print_iterm false t = tok :: rest /\ ihead tok.
+Proof.
+  induction t as [z|c|x|[] a IH|o l IHl r IHr].
+  - cbn. unfold num_tok. destruct (z <? 0)%Z; eexists _, _; split; reflexivity || exact I.
+  - eexists _, _; split; reflexivity || exact I.
+  - eexists _, _; split; reflexivity || exact I.
+  - cbn [print_iterm]. rewrite iassoc_left. cbn [fmt_unary is_left app]. eexists _, _; split; reflexivity || exact I.
+  - cbn [print_iterm]. unfold parens. destruct (paren_lhs _ _ _ _).
+    + cbn. eexists _, _; split; reflexivity || exact I.
+    + destruct IHl as (tok & rest & E & H). rewrite E. cbn. eexists _, _; split; [reflexivity|exact H].
+Qed.
+
+Definition gsize (t : gterm) : nat := match t with GInt t => isize t | _ => 1 end.
+
+Lemma peg_iterm_fail_tok f tok R :
+  match tok with
+  | TWord _ | TInf | TSup | TTrue | TFalse | TRParen | TDot | TComma | TIff | TImp | TRimp | TRel _ | TColon => True
+  | TFun _ SSymbol | TFun _ SGeneral | TVar _ SSymbol | TVar _ SGeneral => True
+  | _ => False
+  end -> peg_iterm (S f) (tok :: R) = Fail.
+Proof.
+  destruct tok as [| | c [] | | x [] | | | | | | | | | | | | | | | | | | | | | | | | |]; cbn; tauto || reflexivity.
+Qed.
+
+Theorem gterm_rt t fuel R : gsize t < fuel -> ifollow R -> peg_gterm fuel (print_gterm false t ++ R) = Ok t R.
+Proof.
+  intros Hf HF. destruct fuel as [|f]; [lia|].
+  destruct t as [| |c|x|t|[s|c|x]]; cbn [print_gterm print_sterm app]; try reflexivity.
+  - destruct (print_iterm_head t) as (tok & rest & E & H).
+    unfold peg_gterm. rewrite iterm_rt by assumption.
+    rewrite E. cbn [app]. destruct tok as [| | c [] | | x [] | | | | | | | | | | | | | | | | | | | | | | | | |]; cbn in H; try tauto; reflexivity.
+Qed.
+
+(* ---------- atoms, comparisons, atomic formulas ---------- *)
+Definition args_size (ts : list gterm) : nat := fold_right (fun t n => S (gsize t) + n) 0 ts.
+
+Lemma peg_terms_ok ts : ts <> [] -> forall fuel R, args_size ts < fuel ->
+  peg_terms fuel (print_args false ts ++ TRParen :: R) = Ok ts (TRParen :: R).
+Proof.
+  induction ts as [|t ts IH]; [congruence|]. intros _ fuel R Hf.
+  destruct fuel as [|f]; [lia|]. cbn [args_size fold_right] in Hf. fold (args_size ts) in Hf.
+  destruct ts as [|t2 ts].
+  - cbn [print_args peg_terms]. rewrite gterm_rt; [reflexivity|lia|reflexivity].
+  - cbn [print_args tsp app peg_terms]. rewrite <- !app_assoc. cbn [app].
+    rewrite gterm_rt; [|lia|reflexivity].
+    rewrite IH; [reflexivity|congruence|lia].
+Qed.
+
+Definition no_lparen (R : list token) : Prop := match R with TLParen :: _ => False | _ => True end.
+
+Lemma peg_atom_ok p ts fuel R : args_size ts < fuel -> no_lparen R ->
+  peg_atom fuel (print_atom false p ts ++ R) = Ok (AAtom p ts) R.
+Proof.
+  intros Hf HR. destruct ts as [|t ts].
+  - cbn [print_atom app peg_atom]. destruct R as [|[] R]; cbn in HR; try tauto; reflexivity.
+  - cbn [print_atom app peg_atom peg_tuple]. rewrite <- app_assoc. cbn [app].
+    rewrite peg_terms_ok; [reflexivity|congruence|exact Hf].
+Qed.
+
+(* what follows a comparison does not continue the guard chain *)
+Definition stops_guards (R : list token) : Prop := forall fuel, 0 < fuel -> peg_guards fuel R = Ok [] R.
+
+Definition guards_size (gs : list guard) : nat := fold_right (fun g n => S (gsize (gterm_of g)) + n) 0 gs.
+
+Lemma ifollow_guards gs R : ifollow R -> ifollow (print_guards false gs ++ R).
+Proof. destruct gs as [|[rl t] gs]; [exact (fun H => H)|]. intros _. reflexivity. Qed.
+
+Lemma peg_guards_ok gs : forall fuel R, guards_size gs < fuel -> ifollow R -> stops_guards R ->
+  peg_guards fuel (print_guards false gs ++ R) = Ok gs R.
+Proof.
+  induction gs as [|[rl t] gs IH]; intros fuel R Hf HF HS.
+  - cbn [print_guards app]. apply HS. lia.
+  - destruct fuel as [|f]; [lia|]. cbn [guards_size fold_right gterm_of] in Hf. fold (guards_size gs) in Hf.
+    cbn [print_guards print_guard tsp app grel gterm_of peg_guards split_rel]. rewrite <- app_assoc.
+    rewrite gterm_rt; [|lia|apply ifollow_guards; exact HF].
+    rewrite IH; [reflexivity|lia|exact HF|exact HS].
+Qed.
+
+Definition asize (a : aformula) : nat :=
+  match a with
+  | ATrue | AFalse => 1
+  | AAtom _ ts => S (args_size ts)
+  | ACmp t gs => S (gsize t + guards_size gs)
+  end.
+
+Definition afollow (R : list token) : Prop := ifollow R /\ no_lparen R /\ stops_guards R.
+
+Lemma print_gterm_head t : exists tok rest, print_gterm false t = tok :: rest /\
+  match tok with TTrue | TFalse => False | _ => True end.
+Proof.
+  destruct t as [| |c|x|t|[s|c|x]]; try (eexists _, _; split; [reflexivity|exact I]).
+  destruct (print_iterm_head t) as (tok & rest & E & H). exists tok, rest. split; [exact E|].
+  destruct tok; cbn in H; tauto.
+Qed.
+
+Theorem atomic_rt a fuel R : asize a < fuel -> (match a with ACmp _ [] => False | _ => True end) -> afollow R ->
+  peg_atomic fuel (print_atomic false a ++ R) = Ok a R.
+Proof.
+  intros Hf Hne (HF & HL & HS). destruct fuel as [|f]; [lia|].
+  destruct a as [| |p ts|t gs]; cbn [print_atomic app]; try reflexivity.
+  - (* atom: the comparison alternative fails first *)
+    assert (EC : peg_comparison (S f) (print_atom false p ts ++ R) = Fail).
+    { unfold peg_comparison. destruct ts as [|t ts].
+      - cbn [print_atom app]. unfold peg_gterm. rewrite peg_iterm_fail_tok by exact I.
+        rewrite HS by lia. reflexivity.
+      - cbn [print_atom app]. unfold peg_gterm. rewrite peg_iterm_fail_tok by exact I. reflexivity. }
+    assert (EA : peg_atom (S f) (print_atom false p ts ++ R) = Ok (AAtom p ts) R).
+    { apply peg_atom_ok; [cbn [asize] in Hf; lia|exact HL]. }
+    unfold peg_atomic. rewrite EC, EA.
+    destruct ts; reflexivity.
+  - destruct gs as [|g gs]; [tauto|]. cbn [asize] in Hf.
+    assert (EC : peg_comparison (S f) (print_gterm false t ++ print_guards false (g :: gs) ++ R) = Ok (ACmp t (g :: gs)) R).
+    { unfold peg_comparison. rewrite gterm_rt; [|lia|apply ifollow_guards; exact HF].
+      rewrite peg_guards_ok; [reflexivity|lia|exact HF|exact HS]. }
+    rewrite <- app_assoc. unfold peg_atomic. rewrite EC.
+    destruct (print_gterm_head t) as (tok & rest & E & H). rewrite E. cbn [app].
+    destruct tok; try tauto; reflexivity.
+Qed.
